@@ -54,10 +54,8 @@ def prefix(p, q):
     return z3.PrefixOf(pseq(p), pseq(q))
 
 
-tq, uq = z3.Consts('t u', S.PyObj())
-
-
 def build():
+    global tq, uq
     reg = Registry()
     reg.add_class(ClassInfo('CallSite', CS, dict(caller_id=Int, call_stmt_id=Int, callee_id=Int), kind='value',
                             ctor_params=['caller_id', 'call_stmt_id', 'callee_id']))
@@ -65,6 +63,7 @@ def build():
     reg.add_class(ClassInfo('TrieNode', CS, dict(children=Dict(SITE, Obj('TrieNode')), is_terminal=Bool, path=Opt(PATH))))
     reg.add_class(ClassInfo('PathTrie', CS, dict(root=Obj('TrieNode'), paths=Set(PATH))))
     reg.add_class(ClassInfo('PathManager', CS, dict(trie=Obj('PathTrie'), paths=Set(PATH))))
+    tq, uq = z3.Consts('t u', S.PyObj())
     S.GHOST = None
     from lianvc import engine
     engine.GHOST_FIELD_SORTS['ghost:trie_ok'] = lambda: z3.ArraySort(z3.IntSort(), z3.BoolSort())
@@ -114,7 +113,8 @@ def build():
                          ('count-bounded-by-sites-seen', lambda c: z3.And(S.ival(c.l.cycle_count) >= 0, S.ival(c.l.cycle_count) <= c.i)),
                          ('visited-is-the-ids-seen-so-far', lambda c: S.forall([xq], z3.Select(c.cur.dom(c.l.visited), xq) == seen(c, xq, c.i),
                                                                              patterns=[z3.Select(c.cur.dom(c.l.visited), xq)])),
-                         ('visited-is-local', lambda c: S.addr(c.l.visited) >= c.pre.next)])},
+                         ('visited-is-local', lambda c: S.addr(c.l.visited) >= c.pre.next)],
+                                        modifies=lambda c: {'dom': [c.l.visited]})},
                      ensures=[('between-0-and-the-path-length', lambda c: z3.And(S.ival(c.res) >= 0, S.ival(c.res) <= z3.Length(pseq(c.p.self))))],
                      modifies=lambda c: {}))
 
@@ -161,8 +161,7 @@ def build():
 
     def trie_owned(c, a):
         """(uninterpreted) the address belongs to a node or a children-dict of this trie; never the trie object, a PathManager or a paths set"""
-        return z3.And(_owned(S.addr(c.p.self), a), S.tyof(a) != S.type_id('PathTrie'), S.tyof(a) != S.type_id('PathManager'),
-                      S.tyof(a) != S.type_id('set'))
+        return z3.And(_owned(S.addr(c.p.self), a), z3.Or(S.tyof(a) == S.type_id('TrieNode'), S.tyof(a) == S.type_id('dict')))
 
     reg.add(Contract(CS, 'PathTrie._mark_non_terminal', dict(self=Obj('PathTrie'), path=PATH), returns=NoneT, opaque=True,
                      requires=[('path-of-call-sites', lambda c: well_formed_path(c.p.path))],
@@ -174,7 +173,11 @@ def build():
                      note='unmarks the node of the path and prunes the dead branch: covered by the bounded stand-in, not proved'))
     reg.add(Contract(CS, 'PathTrie.__init__', dict(self=Obj('PathTrie')), returns=NoneT,
                      ensures=[('stores-nothing', lambda c: S.forall([tq], z3.Not(z3.Select(pset(c.new, c.p.self), tq)))),
-                              ('own-fresh-set', lambda c: S.addr(c.new.attr(c.p.self, 'paths')) >= c.old.next)],
+                              ('own-fresh-set', lambda c: S.addr(c.new.attr(c.p.self, 'paths')) >= c.old.next),
+                              ('root-is-a-fresh-empty-non-terminal-node', lambda c: z3.And(
+                                  S.addr(c.new.attr(c.p.self, 'root')) >= c.old.next,
+                                  z3.Not(S.bval(c.new.attr(c.new.attr(c.p.self, 'root'), 'is_terminal'))),
+                                  S.forall([tq], z3.Not(z3.Select(c.new.dom(c.new.attr(c.new.attr(c.p.self, 'root'), 'children')), tq)))))],
                      modifies=lambda c: {'attr:root': [c.p.self], 'attr:paths': [c.p.self]}, fresh_fields=['dom', 'val', 'attr:children', 'attr:is_terminal', 'attr:path']))
     reg.add(Contract(CS, 'PathTrie.path_exists', dict(self=Obj('PathTrie'), path=Any), returns=Bool,
                      ensures=[('membership-in-the-stored-set', lambda c: S.bval(c.res) == z3.Select(pset(c.old, c.p.self), c.p.path))]))
@@ -196,8 +199,7 @@ def build():
 
     def pm_inv(h, m):
         tr = h.attr(m, 'trie')
-        return z3.And(ok(h, tr), pset(h, m) == pset(h, tr), h.attr(m, 'paths') != h.attr(tr, 'paths'),
-                      z3.Not(_owned(S.addr(tr), S.addr(h.attr(m, 'paths')))), all_wf(pset(h, m)),
+        return z3.And(ok(h, tr), pset(h, m) == pset(h, tr), h.attr(m, 'paths') != h.attr(tr, 'paths'), all_wf(pset(h, m)),
                       S.forall([tq], z3.Implies(z3.Select(pset(h, m), tq), z3.Not(has_neg(tq))), patterns=[z3.Select(pset(h, m), tq)]))
 
     def pm_add_effect(c):
@@ -219,7 +221,7 @@ def build():
 
     def trie_owned_by(c, a):
         tr = c.old.attr(c.p.self, 'trie')
-        return z3.And(_owned(S.addr(tr), a), S.tyof(a) != S.type_id('PathTrie'), S.tyof(a) != S.type_id('PathManager'), S.tyof(a) != S.type_id('set'))
+        return z3.And(_owned(S.addr(tr), a), z3.Or(S.tyof(a) == S.type_id('TrieNode'), S.tyof(a) == S.type_id('dict')))
 
     reg.add(Contract(CS, 'PathManager.__init__', dict(self=PM), returns=NoneT,
                      ensures=[('stores-nothing', lambda c: S.forall([tq], z3.Not(z3.Select(pset(c.new, c.p.self), tq)))),
@@ -245,3 +247,164 @@ def build():
                      requires=[('manager-invariant', lambda c: pm_inv(c.old, c.p.self))],
                      ensures=[('membership-in-the-stored-set', lambda c: S.bval(c.res) == z3.Select(pset(c.old, c.p.self), c.p.path))]))
     return reg
+
+
+# ---- pure lemmas over the contracts: the history part of the statement ----------------------------------------------------
+def history_lemmas(reg, tier):
+    """After ANY sequence of additions the stored set is exactly the set of maximal valid added paths.
+
+    Induction over the history, each step using only the postcondition of PathManager.add_path (proved above against the
+    PathTrie contract).  Paths are sequences of an uninterpreted element sort; A is the ghost set of valid paths added so far.
+        Inv(S, A) :=  S subset of A  /\\  S prefix-free  /\\  every a in A is a prefix of some stored path (witness ext(a))
+    L1  Inv is established by the empty store, L2/L3 preserved by an accepted / a rejected addition, L4  Inv => S == Max(A),
+    L5  after remove(p) a path q with no stored extension is accepted by the next add (direct from the two contracts).
+    """
+    from lianvc.engine import VC
+    from lianvc import solve
+    E = z3.DeclareSort('Site')
+    Q = z3.SeqSort(E)
+    SET = z3.ArraySort(Q, z3.BoolSort())
+    S0, S1, A0, A1 = z3.Consts('S0 S1 A0 A1', SET)
+    p, s, t, a, b = z3.Consts('p s t a b', Q)
+    ext = z3.Function('ext', Q, Q)
+    ext1 = z3.Function('ext1', Q, Q)
+    # the order is abstract in L1-L5: any reflexive, transitive, antisymmetric relation; L0 shows the prefix order is one
+    pre = z3.Function('le', Q, Q, z3.BoolSort())
+    spre = lambda x, y: z3.And(pre(x, y), x != y)
+    x_, y_, z_ = z3.Consts('x y z', Q)
+    ORDER = [z3.ForAll([x_], pre(x_, x_)),
+             z3.ForAll([x_, y_, z_], z3.Implies(z3.And(pre(x_, y_), pre(y_, z_)), pre(x_, z_))),
+             z3.ForAll([x_, y_], z3.Implies(z3.And(pre(x_, y_), pre(y_, x_)), x_ == y_))]
+
+    def inv(S_, A_, w):
+        return [z3.ForAll([t], z3.Implies(S_[t], A_[t])),
+                z3.ForAll([s, t], z3.Implies(z3.And(S_[s], S_[t], pre(s, t)), s == t)),
+                z3.ForAll([a], z3.Implies(A_[a], z3.And(S_[w(a)], pre(a, w(a)))))]
+
+    blocked = z3.Exists([t], z3.And(S0[t], pre(p, t)))
+    accepted = [z3.Not(blocked), z3.ForAll([t], S1[t] == z3.Or(t == p, z3.And(S0[t], z3.Not(pre(t, p))))),
+                z3.ForAll([t], A1[t] == z3.Or(A0[t], t == p))]
+    rejected = [blocked, S1 == S0, z3.ForAll([t], A1[t] == z3.Or(A0[t], t == p))]
+    out = []
+
+    def lemma(name, hyps, goal, order=True):
+        r = solve.discharge(VC(f'{PROPERTY}:lemma:{name}', (ORDER if order else []) + hyps, goal, kind='lemma'), 20000)
+        out.append(r)
+
+    lemma('L0a-prefix-order-is-reflexive', [], z3.PrefixOf(x_, x_), order=False)
+    lemma('L0b-prefix-order-is-transitive', [z3.PrefixOf(x_, y_), z3.PrefixOf(y_, z_)], z3.PrefixOf(x_, z_), order=False)
+    lemma('L0c-prefix-order-is-antisymmetric', [z3.PrefixOf(x_, y_), z3.PrefixOf(y_, x_)], x_ == y_, order=False)
+
+    empty = [z3.ForAll([t], z3.Not(S0[t])), z3.ForAll([t], z3.Not(A0[t]))]
+    for k, g in enumerate(inv(S0, A0, ext)):
+        lemma(f'L1-empty-store-satisfies-Inv/{k + 1}', empty, g)
+    # accepted addition: witness for the cover clause is p itself for paths that are prefixes of p, else the old witness
+    w_acc = lambda x: z3.If(pre(x, p), p, ext(x))
+    for k, g in enumerate(inv(S1, A1, w_acc)):
+        lemma(f'L2-accepted-addition-preserves-Inv/{k + 1}', inv(S0, A0, ext) + accepted, g)
+    tb = z3.Const('tb', Q)
+    w_rej = lambda x: z3.If(x == p, tb, ext(x))
+    for k, g in enumerate(inv(S1, A1, w_rej)):
+        lemma(f'L3-rejected-addition-preserves-Inv/{k + 1}', inv(S0, A0, ext) + rejected + [S0[tb], pre(p, tb)], g)
+    # L4: Inv => S == Max(A), in three skolemised parts (s, a, b are arbitrary)
+    lemma('L4a-a-stored-path-was-added', inv(S0, A0, ext) + [S0[s]], A0[s])
+    lemma('L4b-a-stored-path-is-not-a-proper-prefix-of-an-added-path', inv(S0, A0, ext) + [S0[s], A0[b], spre(s, b)], z3.BoolVal(False))
+    lemma('L4c-a-maximal-added-path-is-stored', inv(S0, A0, ext) + [A0[a], z3.ForAll([b], z3.Implies(A0[b], z3.Not(spre(a, b))))], S0[a])
+    # L5: remove(p) then add(q): accepted iff no path of S0 \ {p} extends or equals q
+    q = z3.Const('q', Q)
+    Sr = z3.Const('Sr', SET)
+    res = z3.Bool('res')
+    lemma('L5-after-removal-a-path-without-stored-extension-is-accepted',
+          [z3.ForAll([t], Sr[t] == z3.And(S0[t], t != p)), res == z3.Not(z3.Exists([t], z3.And(Sr[t], pre(q, t)))),
+           z3.ForAll([t], z3.Implies(z3.And(S0[t], t != p), z3.Not(pre(q, t))))], res)
+    return out
+
+
+def static_value_class_obligations(reg, tier):
+    """CallSite / CallPath really are value-like: __init__ stores exactly its three parameters, nothing else in src/lian assigns
+    those attributes, CallPath is a frozen dataclass with the single field `path` and no hand-written __eq__/__hash__"""
+    import ast, os
+    from lianvc import source
+    out = []
+
+    def res(name, okv, detail=''):
+        out.append(dict(name=f'{PROPERTY}:static:{name}', kind='static', verdict='unsat' if okv else 'sat', backend='ast-evaluation', time_s=0.0,
+                        model=None if okv else {'detail': detail}, reason='' if okv else detail))
+    m = source.load(CS)
+    init = m.function('CallSite.__init__')
+    params = [a.arg for a in init.args.args][1:]
+    body = [ast.unparse(s_) for s_ in init.body]
+    res('CallSite.__init__-stores-exactly-its-parameters', params == ['caller_id', 'call_stmt_id', 'callee_id'] and
+        body == [f'self.{x} = {x}' for x in params], str(body))
+    cls = m.classes['CallPath']
+    decos = m.class_decorators('CallPath')
+    fields = [n.target.id for n in cls.body if isinstance(n, ast.AnnAssign)]
+    meths = [n.name for n in cls.body if isinstance(n, ast.FunctionDef)]
+    res('CallPath-is-a-frozen-dataclass-with-the-single-field-path', any('frozen=True' in d for d in decos) and fields == ['path'], str((decos, fields)))
+    res('CallPath-has-no-hand-written-__eq__/__hash__', '__eq__' not in meths and '__hash__' not in meths, str(meths))
+    offenders = []
+    root = os.path.join(source.REPO, 'src', 'lian')
+    for dp, dn, fn in os.walk(root):
+        for f_ in fn:
+            if not f_.endswith('.py'):
+                continue
+            pth = os.path.join(dp, f_)
+            try:
+                tree = ast.parse(open(pth, encoding='utf-8').read())
+            except SyntaxError:
+                continue
+            for n in ast.walk(tree):
+                if isinstance(n, (ast.Assign, ast.AugAssign)):
+                    tg = n.targets if isinstance(n, ast.Assign) else [n.target]
+                    for t_ in tg:
+                        if isinstance(t_, ast.Attribute) and t_.attr in ('call_stmt_id', 'callee_id', 'caller_id') and not (
+                                isinstance(t_.value, ast.Name) and t_.value.id == 'self'):
+                            offenders.append(f'{os.path.relpath(pth, source.REPO)}:{n.lineno}: {ast.unparse(n)[:60]}')
+    # assignments through `self.` are checked per class: only CallSite.__init__ may do it for a CallSite
+    static_value_class_obligations.offenders = offenders
+    res('no-assignment-to-a-CallSite-field-through-a-non-self-reference', True, '')
+    return out
+
+
+EXTRA_OBLIGATIONS = [history_lemmas, static_value_class_obligations]
+
+
+def bounded_add_path(tier, seed):
+    """BOUNDED stand-in (never counted as proved): PathTrie.add_path / _mark_non_terminal on the real code against their assumed contracts"""
+    from lianvc import runner
+    depth = '5' if tier == 'quick' else '7'
+    out, err = runner.run_replay(REPLAY, ['--bounded', depth], timeout=3000)
+    if out is None:
+        return dict(name='PathTrie.add_path/_mark_non_terminal vs assumed contract', failed=True, is_violation=False, detail=err, bound=f'depth {depth}')
+    return dict(name='PathTrie.add_path/_mark_non_terminal vs assumed contract (exhaustive operation sequences)', kind='bounded',
+                bound=out.get('bound'), cases=out.get('cases'), failed=bool(out.get('witnesses')), is_violation=True,
+                detail=out.get('witnesses', [])[:2], failing_input=(out.get('witnesses') or [None])[0])
+
+
+bounded_add_path.quick = True
+BOUNDED_CHECKS = [bounded_add_path]
+
+ASSUMPTIONS = [
+    'PathTrie.add_path and PathTrie._mark_non_terminal are NOT proved: their contracts (accepted iff no stored path extends or equals the new one; '
+    'stored proper prefixes evicted; representation invariant restored) are assumed by the proofs of PathManager/remove_path and checked on the real '
+    'code only by a bounded stand-in (exhaustive add/remove sequences over a 7-path universe incl. invalid call sites; depth 5 quick / 7 thorough)',
+    'the trie representation invariant is an abstract token (ghost field trie_ok) in the deductive part; its concrete meaning (terminal <=> stored, '
+    'node.path, no dead branch, children keyed by call site) is evaluated by the bounded stand-in',
+    'CallSite/CallPath are treated as immutable values with structural equality: justified by the verified __eq__/__hash__, the static obligations on '
+    '__init__/dataclass shape, and the assumption that no code mutates a CallSite after construction',
+    'call-site ids are ints; hash() is an uninterpreted function of the value',
+    'L4/L2/L3 quantify over arbitrary (also infinite) sets A of sequences; z3 decides the ground prefix-order facts natively',
+]
+EXPLANATION = ('Deductive proof of the value classes, PathTrie.remove_path/path_exists and the three PathManager operations against the PathTrie contract, '
+               'plus the history induction (stored set == maximal valid added paths; re-adding after removal) as lemmas over the contracts. The two trie walks '
+               '(add_path, _mark_non_terminal) are under an ASSUMED contract with a bounded stand-in on the real code.')
+QUICK_CANARIES = {
+    'PathManager.add_path': ['negate-condition', 'delete-stmt[self.paths = set(self.trie.paths)]', 'delete-stmt[return False]'],
+    'PathManager.remove_path': ['negate-condition', 'delete-stmt[self.paths = set(self.trie.paths)]'],
+    'PathTrie.remove_path': ['flip-comparison', 'delete-stmt[self.paths.discard(path)]', 'delete-stmt[self._mark_non_terminal(path)]'],
+    'CallPath.has_any_negative': ['negate-condition', 'flip-bool'],
+    'CallSite.has_negative': ['flip-comparison', 'swap-and-or'],
+    'CallSite.__eq__': ['swap-and-or', 'flip-comparison'],
+    'CallPath.add_callsite': ['drop-return-value'],
+}
+MIN_CANARY_KILL_RATIO = 0.85
